@@ -25,6 +25,7 @@ const (
 	hdrUntag
 	hdrRetag
 	hdrEmptyPayload
+	hdrRecodeProt
 	hdrVariants
 )
 
@@ -174,6 +175,26 @@ func applyNetFault(tok []byte, op Op, donor []byte) ([]byte, bool) {
 			return asm([]byte{0xd2}, prot, unprot, []byte{0x40}, sig), true
 		case hdrEmptySig:
 			return asm([]byte{0xd2}, prot, unprot, payload, []byte{0x40}), true
+		case hdrRecodeProt:
+			// same protected map, one of its small integers written non-minimally
+			var hs []cborHead
+			if _, err := walkItem(p.Prot, 0, 0, &hs); err != nil {
+				return out, false
+			}
+			var cands []cborHead
+			for _, h := range hs {
+				if (h.Major == 0 || h.Major == 1) && h.HLen == 1 {
+					cands = append(cands, h)
+				}
+			}
+			if len(cands) == 0 {
+				return out, false
+			}
+			h := cands[abs(op.B)%len(cands)]
+			np := append([]byte{}, p.Prot[:h.Off]...)
+			np = append(np, encodeHeadW(h.Major, h.Arg, 1)...)
+			np = append(np, p.Prot[h.Off+1:]...)
+			return asm([]byte{0xd2}, cborBstr(np), unprot, payload, sig), true
 		case hdrUntag:
 			return out[1:], true
 		case hdrRetag:
